@@ -1,16 +1,17 @@
 SPECIFICATION Spec
 CONSTANTS
- ArgSel = {1, 2, 3, 4, 5, 7}
- OneSel = {1, 3, 5}
+ ArgSel = {1, 2, 3, 4, 5, 6, 7, 9, 10, 11}
+ OneSel = {1}
  MaxBatch = 2
- MaxDepth = 3
- MaxObjs = 2
- OpKinds = {"iadd", "xdirect", "insert", "remove", "read", "new", "copy", "add", "radd"}
+ MaxList = 3
+ MaxDepth = 1
+ MaxObjs = 1
+ OpKinds = {"iadd"}
  Gnu = TRUE
 INVARIANT InvNothingInventedOrLost
 INVARIANT InvNoDedupOrderAndMultiplicityKept
 INVARIANT InvLaterSettingWins
-INVARIANT InvReaddIsIdempotentOnDedupable
+INVARIANT InvReaddIdempotent
+INVARIANT InvDirectIsPlainAppend
 INVARIANT InvNativeShape
-INVARIANT TypeOK
 CHECK_DEADLOCK FALSE
